@@ -34,6 +34,15 @@ class BuildError(Exception):
     pass
 
 
+class GeneratedCodeError(BuildError):
+    """The Go code the working tree's generator produced for the workload schemas does not compile."""
+
+    def __init__(self, pkgs, output):
+        super().__init__("generated code does not compile:\n" + output[-4000:])
+        self.pkgs = pkgs
+        self.output = output
+
+
 def goenv(extra=None):
     e = dict(os.environ)
     e.update(GOENV)
@@ -245,6 +254,10 @@ def build_sim(kind):
         genbin = os.path.join(kd, "generator.bin")
         run(["go", "build", "-o", genbin, "./generator"], cwd=copy)
         reg = generate_corpus(copy, genbin, corpus_mod.CORPUS)
+        # 1b. the generated packages must compile before anything is layered on top of them
+        p = run(["go", "build"] + ["./verifcorpus/" + e["name"] for e in reg], cwd=copy, check=False)
+        if p.returncode != 0:
+            raise GeneratedCodeError([e["name"] for e in reg], p.stdout)
         # 2. seam (the cache-eviction hook goes in first so that its locks get the shim too)
         shutil.copy(os.path.join(VERIF, "sim", "inject", "ytypes_buggify.go"), os.path.join(copy, "ytypes", "zz_verif_buggify.go"))
         inject_simrt(copy)
